@@ -289,6 +289,15 @@ def run(chk):
             if mine != want:
                 chk.violation(dict(r, observed=mine, reference_engine=want))
             return chk.finish()
+        if r.get("combinator"):
+            res, err = run_orders(chk, [{"program": r["program"], "host": r["host"]}], "replay")
+            if res is None:
+                raise common.FrameworkError(err)
+            oc = outcome(res[0])
+            log("replay: observed=%r expected=%r" % (oc, r["with_values_available_at_once"]))
+            if oc != ("complete", r["with_values_available_at_once"]):
+                chk.violation(dict(r, observed=oc))
+            return chk.finish()
         if r.get("ledger"):
             res, err = run_orders(chk, [{"program": r["source"], "auto": r["schedule"]}], "replay")
             if res is None:
@@ -430,6 +439,62 @@ def run(chk):
                                    "schedule": sc, "observed": oc, "sync_result_in_coq": model[k],
                                    "what": "Interpreter under this host schedule does not complete with Suspend.Schedule.sync_result of the program",
                                    "ledger": True})
+
+    # ---- P: combinators over inputs that are available at different times -----------------------
+    # three host orders feed Promise.all / Promise.race; each order is answered with a plain value (V), with
+    # a host promise settled before the program continues (E) or with a host promise settled later (L), the
+    # late ones in every order. The reference is the program with the synchronous stub: nothing is pending.
+    import itertools
+    pcases = []
+    for comb in ("all", "race"):
+        for kinds in itertools.product("VEL", repeat=3):
+            late = [i for i, k in enumerate(kinds) if k == "L"]
+            perms = list(itertools.permutations(late)) if late else [()]
+            if chk.tier == "quick" and len(perms) > 2:
+                perms = [perms[0], perms[-1], perms[len(perms) // 2]]
+            for perm in perms:
+                for spurious in ((0,) if chk.tier == "quick" else (0, 2)):
+                    pcases.append((comb, kinds, perm, spurious))
+    preqs, pexp = [], []
+    for comb, kinds, perm, spurious in pcases:
+        body = "const a = order(1); const b = order(2); const c = order(3);\n"
+        if comb == "all":
+            body += "(await Promise.all([a, b, c])).join()"
+            want = "v1,v2,v3"
+        else:
+            body += "await Promise.race([a, b, c])"
+            avail = [i for i, k in enumerate(kinds) if k != "L"]
+            want = "v%d" % ((avail[0] if avail else perm[0]) + 1)
+        host = []
+        for i, k in enumerate(kinds):
+            if k == "V":
+                host.append({"fulfil": [[i + 1, {"ok": "v%d" % (i + 1)}]]})
+            else:
+                host.append({"fulfil": [[i + 1, {"promise": i + 1, "linked": True}]]})
+                if k == "E":
+                    host.append({"resolve": [i + 1, "v%d" % (i + 1)]})
+            host.append({"step": 1})
+        for i in perm:
+            host += [{"step": 1}] * spurious
+            host.append({"resolve": [i + 1, "v%d" % (i + 1)]})
+            host.append({"step": 1})
+        host += [{"step": 1}, {"step": 1}]
+        preqs.append({"program": H + body, "host": host})
+        pexp.append(want)
+    pres, err = run_orders(chk, preqs, "p")
+    stats["availability_cases"] = len(pcases)
+    if pres is None:
+        chk.violation({"what": "orders harness failed on the availability stream: " + err})
+    else:
+        for (comb, kinds, perm, spurious), rq, want, o in zip(pcases, preqs, pexp, pres):
+            oc = outcome(o)
+            if oc != ("complete", want):
+                stats["disagreements"] += 1
+                if len(chk.violations) < 8:
+                    chk.violation({"combinator": comb, "answers": "".join(kinds), "late_settling_order": list(perm), "spurious_steps": spurious,
+                                   "program": rq["program"], "host": rq["host"], "observed": oc, "with_values_available_at_once": want,
+                                   "what": "the result of Promise.%s depends on whether its inputs were available at the call or arrived after a "
+                                           "suspension (V = value, E = host promise settled before the program continued, L = settled later)" % comb})
 
     # ---- D: generators (known finding Y1) -------------------------------------------------------
     reqs = [{"program": s, "auto": {"mode": "double"}} for s in GEN_T.values()]
